@@ -1,9 +1,93 @@
+import CoupeModel.Model.Rcb
 import CoupeModel.Driver.Util
+import CoupeModel.Driver.RcbF32
+
+/-!
+C04 driver.  Same inputs as C03, the output carries the per-node trace of the cut search
+(bisection nodes in pre-order: node, low subtree, high subtree; nodes without items and
+leaves have no entry):
+
+* `rcb <D> <iter> <tol f64> <threads> <n> <w…> <x f64 … n·D>`
+    → `ok <ids> | <exit>,<sum>,<weight_left>,<split_pos f32>,<n_low> …`
+* `rib <D> <iter> <tol f64> <threads> <n> <w…> <orig f64 … n·D> <rot f64 … n·D>` → same
+* `split <D> <coord> <tol f64> <min f32> <max f32> <n> <w…> <x f32 … n·D>`
+    → `ok <exit> <split> <weight_left> <split_pos f32> | <item ids in final order>`
+
+`exit` ∈ `allleft`, `plateau`, `nopoint`, `tol`.
+-/
 
 namespace Coupe.Driver.C04
-open Coupe.Driver
+open Coupe.Rcb Coupe.Driver Coupe.Driver.RcbF32
 
-/-- (stub; not built yet) -/
-def handle (_toks : List String) : String := "bad-op"
+def trace : Tree (NodeInfo Float32) → List String
+  | .empty => []
+  | .leaf _ _ => []
+  | .node i lo hi =>
+    (exitName i.exit ++ "," ++ toString i.sum ++ "," ++ toString i.weightLeft ++ "," ++
+      f32Hex i.splitPos ++ "," ++ toString lo.members.length) :: (trace lo ++ trace hi)
+
+def showTree (n : Nat) (r : Res (Tree (NodeInfo Float32))) : String :=
+  match r with
+  | .oob => "panic index out of bounds"
+  | .fuel => "abort fuel"
+  | .ok t =>
+    let ids := idsOfTree n t
+    "ok" ++ (if ids.isEmpty then "" else " " ++ joinNats ids) ++ " |" ++
+      (if (trace t).isEmpty then "" else " " ++ " ".intercalate (trace t))
+
+def runPts (d iter tol n : Nat) (ws : List Int) (coords : List Nat) : String :=
+  if n = 0 then "ok |" else
+  let pts64 := chunk d n (coords.map f64OfBits)
+  let pts := pts64.map (·.map Float.toFloat32)
+  let bb := bboxF64 d pts64
+  showTree n (runTree (withinTol (f64OfBits tol)) ⟨d, fuel⟩ iter pts ws bb.1 bb.2)
+
+def handle (toks : List String) : String :=
+  match toks with
+  | "rcb" :: d :: iter :: tol :: _threads :: n :: rest =>
+    match (do
+      let d ← parseNat? d
+      let iter ← parseNat? iter
+      let tol ← parseHex? tol
+      let n ← parseNat? n
+      let (ws, rest) ← takeParsed parseInt? n rest
+      let (xs, rest) ← takeParsed parseHex? (n * d) rest
+      if rest.isEmpty then some (d, iter, tol, n, ws, xs) else none) with
+    | none => "bad-op"
+    | some (d, iter, tol, n, ws, xs) => runPts d iter tol n ws xs
+  | "rib" :: d :: iter :: tol :: _threads :: n :: rest =>
+    match (do
+      let d ← parseNat? d
+      let iter ← parseNat? iter
+      let tol ← parseHex? tol
+      let n ← parseNat? n
+      let (ws, rest) ← takeParsed parseInt? n rest
+      let (_orig, rest) ← takeParsed parseHex? (n * d) rest
+      let (rot, rest) ← takeParsed parseHex? (n * d) rest
+      if rest.isEmpty then some (d, iter, tol, n, ws, rot) else none) with
+    | none => "bad-op"
+    | some (d, iter, tol, n, ws, rot) => runPts d iter tol n ws rot
+  | "split" :: d :: coord :: tol :: mn :: mx :: n :: rest =>
+    match (do
+      let d ← parseNat? d
+      let coord ← parseNat? coord
+      let tol ← parseHex? tol
+      let mn ← parseHex? mn
+      let mx ← parseHex? mx
+      let n ← parseNat? n
+      let (ws, rest) ← takeParsed parseInt? n rest
+      let (xs, rest) ← takeParsed parseHex? (n * d) rest
+      if rest.isEmpty then some (d, coord, tol, mn, mx, ws, xs) else none) with
+    | none => "bad-op"
+    | some (d, coord, tol, mn, mx, ws, xs) =>
+      let items := mkItems (chunk d ws.length (xs.map f32OfBits)) ws
+      match split (withinTol (f64OfBits tol)) coord ws.sum items fuel 0
+          (f32OfBits mn) (f32OfBits mx) none with
+      | .ok r => "ok " ++ exitName r.exit ++ " " ++ toString r.left.length ++ " " ++
+          toString r.weightLeft ++ " " ++ f32Hex r.splitPos ++ " | " ++
+          joinNats ((r.left ++ r.right).map (·.id))
+      | .oob => "panic index out of bounds"
+      | .fuel => "abort fuel"
+  | _ => "bad-op"
 
 end Coupe.Driver.C04
